@@ -514,6 +514,7 @@ def det_case(draw, atom_names=None, bound_kinds=None, max_atoms=2, int_ok=False,
             cone_list.append(draw(cone_use(n, xbar, cones if isinstance(cones, (list, tuple)) else ['rsocone', 'expcone', 'kldiv'],
                                            strict=strict)))
     case = {'front': draw(st.sampled_from(list(fronts))), 'n': n, 'vtypes': ''.join(vtypes), 'bounds': bounds,
+            'loose_bounds': draw(st.sampled_from([0, 0, 1, 2])),
             'lin': lin, 'atoms': atoms, 'cones': cone_list, 'obj': obj, 'witness': [float(v) for v in xbar],
             'decl': draw(st.sampled_from(['one', 'split'])), 'bound_style': draw(st.sampled_from(['array', 'entry', 'rows', 'slice']))}
     if case['front'] == 'dro':      # kldiv() on decisions is rejected (TypeError) by the dro front end
@@ -683,6 +684,19 @@ def declare(case, m, x, pieces):
     bs = case.get('bound_style', 'array')
     handles = {'bounds': [], 'lin': [], 'cert': []}
 
+    def loose_bounds():
+        # redundant, looser bound objects on the same variables (the tighter declaration must keep winning)
+        for (var, start, size) in pieces:
+            l, h = lo[start:start + size] - 1.5, hi[start:start + size] + 0.5
+            if np.all(np.isfinite(l)):
+                m.st(var >= l)
+            if np.all(np.isfinite(h)):
+                m.st(var <= h)
+            if size > 1 and np.isfinite(l[0]):
+                m.st(var[0] >= float(l[0]) - 1.0)
+    if case.get('loose_bounds') == 2:
+        loose_bounds()
+
     def unit(j):
         e = np.zeros(n)
         e[j] = 1.0
@@ -733,6 +747,8 @@ def declare(case, m, x, pieces):
                         handles['cert'].append({'kind': 'lb', 'idx': [start + j], 'h': np.array([l[j]]), 'c': m.st(var[j] >= float(l[j]))})
                     if np.isfinite(h[j]):
                         handles['cert'].append({'kind': 'ub', 'idx': [start + j], 'h': np.array([h[j]]), 'c': m.st(var[j] <= float(h[j]))})
+    if case.get('loose_bounds') == 1:
+        loose_bounds()
     for con in case['lin']:
         A, b = np.array(con['A'], dtype=float), np.array(con['b'], dtype=float)
         sty = con.get('style', 0)
